@@ -407,7 +407,7 @@ class X12Reader(X12Base):
             if line.startswith(' '):
                 err_str = 'Segment contains a leading space'
                 self._seg_error('1', err_str, None, src_line=self.cur_line + 1)
-                line = line.lstrip()
+                line = line.lstrip(' ')
                 if line == '':
                     continue  # nothing but blanks
             if line[-1] == self.ele_term:
